@@ -168,14 +168,29 @@ def frag(kind):
         F["src/q.f90"] = f"module mq\ncontains\nsubroutine dup_2()\n!! {T(1)}\nend subroutine dup_2\nend module mq\n"
     elif kind == "interface-proc":
         F["src/r.f90"] = f"module mr\ninterface\nsubroutine dup()\n!! {T(1)}\nend subroutine dup\nend interface\nabstract interface\nsubroutine dup2()\n!! {T(2)}\nend subroutine dup2\nend interface\nend module mr\n"
+    elif kind == "generic-bodies":
+        # generic / operator interfaces made of explicit interface bodies: each body is an item of the interface page
+        F["src/s.f90"] = (f"module ms\ninterface dup\n!! {T(1)}\nsubroutine dup_s(a)\n!! {T(2)}\nreal :: a\nend subroutine dup_s\n"
+                          f"subroutine dup_d(a)\n!! {T(3)}\ndouble precision :: a\nend subroutine dup_d\nfunction dup_f(a)\n!! {T(4)}\ninteger :: a, dup_f\nend function dup_f\n"
+                          f"end interface dup\ninterface operator(.dupop.)\n!! {T(5)}\nfunction op_a(a, b)\n!! {T(6)}\ninteger, intent(in) :: a, b\ninteger :: op_a\nend function op_a\n"
+                          f"function op_b(a, b)\n!! {T(7)}\nreal, intent(in) :: a, b\nreal :: op_b\nend function op_b\nend interface\nend module ms\n")
+    elif kind == "extra-files":
+        # non-Fortran sources documented through extra_filetypes (see OPTIONS)
+        F["src/t.f90"] = f"module mt\n!! {T(1)}\nend module mt\n"
+        F["src/defaults.yml"] = f"# plain comment\n#! {T(2)}\nkey: value\n"
+        F["src/limits.h"] = f"//! {T(3)}\n#define LIMIT 3\n"
+        F["src/sub/defaults.yml"] = f"#! {T(4)}\nother: 1\n"
     else:
         raise KeyError(kind)
     return F
 
 
+OPTIONS = {"extra-files": dict(extra_filetypes=[dict(extension="yml", comment="#"), dict(extension="h", comment="//")])}
+
+
 KINDS = ["modproc-a", "modproc-b", "modproc-case", "external", "type-ctor", "type-case", "module-named-dup", "submodule-named-dup",
          "module-case", "program-named-dup", "unnamed-program", "unnamed-blockdata", "operators", "bound-operators", "namelists",
-         "same-basename", "same-basename-case", "variables", "tilde-name", "interface-proc"]
+         "same-basename", "same-basename-case", "variables", "tilde-name", "interface-proc", "generic-bodies", "extra-files"]
 EXCLUSIVE = [{"program-named-dup", "unnamed-program"}, {"module-named-dup", "module-case"}]
 
 
@@ -199,7 +214,10 @@ def run_project(st: Stats, combo, order):
     perm = names if order == 0 else list(reversed(names))
     fordrun.FILE_ORDER = lambda fl: sorted(fl, key=lambda p: perm.index(str(p)[str(p).index("src/"):]))
     try:
-        r = fordrun.build(files, dict(display=["public", "private", "protected"], proc_internals=True, incl_src=True), stage="write")
+        extra = {}
+        for k in combo:
+            extra.update(OPTIONS.get(k, {}))
+        r = fordrun.build(files, dict(display=["public", "private", "protected"], proc_internals=True, incl_src=True, **extra), stage="write")
     finally:
         fordrun.FILE_ORDER = None
     st.evaluations += 1
@@ -279,7 +297,7 @@ def run_project(st: Stats, combo, order):
                              dict(entity=f"{coll}:{e.name}", url=url, tracer=words[:1], found=bool(pg)), "the entity's tracer on the page at its URL")
         # 4. copied sources
         by_name = {}
-        for f in r.project.files:
+        for f in list(r.project.files) + list(r.project.extra_files):
             by_name.setdefault(f.name, []).append(f)
         for name, fl in by_name.items():
             copied = r.out / "src" / name
